@@ -473,6 +473,16 @@ impl Observe for () {
         Val::Unit
     }
 }
+impl Observe for darling::util::Flag {
+    fn observe(&self) -> Val {
+        Val::B(self.is_present())
+    }
+}
+impl Observe for darling::util::PathList {
+    fn observe(&self) -> Val {
+        Val::Seq(self.to_strings().into_iter().map(Val::S).collect())
+    }
+}
 impl Observe for syn::LitStr {
     fn observe(&self) -> Val {
         Val::S(self.value())
